@@ -49,22 +49,23 @@ type params struct {
 }
 
 type result struct {
-	Params    params         `json:"params"`
-	V         *violation     `json:"violation,omitempty"`
-	Digest    uint64         `json:"digest"`
-	Class     string         `json:"class"`
-	Steps     int            `json:"steps"`
-	SimMs     int64          `json:"sim_ms"`
-	NOps      int            `json:"n_ops"`
-	Stats     map[string]int `json:"stats,omitempty"`
-	Faults    map[string]int `json:"faults,omitempty"`
-	Sample    string         `json:"sample,omitempty"`
-	Incon     string         `json:"inconclusive,omitempty"`
-	Ops       []string       `json:"ops,omitempty"`
-	Config    string         `json:"config,omitempty"`
-	Decisions int            `json:"decisions,omitempty"`
-	Owned     bool           `json:"owned,omitempty"`
-	Cases     int            `json:"cases,omitempty"`
+	Params    params            `json:"params"`
+	V         *violation        `json:"violation,omitempty"`
+	Digest    uint64            `json:"digest"`
+	Class     string            `json:"class"`
+	Steps     int               `json:"steps"`
+	SimMs     int64             `json:"sim_ms"`
+	NOps      int               `json:"n_ops"`
+	Stats     map[string]int    `json:"stats,omitempty"`
+	Faults    map[string]int    `json:"faults,omitempty"`
+	Sample    string            `json:"sample,omitempty"`
+	Incon     string            `json:"inconclusive,omitempty"`
+	Ops       []string          `json:"ops,omitempty"`
+	Config    string            `json:"config,omitempty"`
+	Decisions int               `json:"decisions,omitempty"`
+	Owned     bool              `json:"owned,omitempty"`
+	Cases     int               `json:"cases,omitempty"`
+	Known     map[string]string `json:"known,omitempty"`
 }
 
 // scenario plan per property: scenario name and share of the time budget
@@ -154,6 +155,11 @@ func prepare(needRace bool) *build {
 	mod := fmt.Sprintf("module verifsim\n\ngo 1.18\n\nrequire (\n\tgithub.com/0xrawsec/sod v0.0.0\n\tgithub.com/anishathalye/porcupine v1.3.0\n\tgithub.com/google/uuid v1.3.0\n)\n\nreplace github.com/0xrawsec/sod => %s/sod\n", scr)
 	os.WriteFile(filepath.Join(scr, "build.mod"), []byte(mod), 0644)
 	os.WriteFile(filepath.Join(scr, "build.sum"), []byte(buildSum), 0644)
+	var pats []string
+	for _, k := range loadKnown() {
+		pats = append(pats, k.Sig)
+	}
+	os.WriteFile(filepath.Join(scr, "known.txt"), []byte(strings.Join(pats, "\n")+"\n"), 0644)
 	b.worker = filepath.Join(scr, "simworker")
 	goBuild := func(out string, race bool) {
 		args := []string{"build", "-modfile=" + filepath.Join(scr, "build.mod"), "-o", out}
@@ -197,11 +203,13 @@ type agg struct {
 	viol      []*result
 	classes   map[string]int
 	decisions int64
+	knownHit  map[string]int
+	knownEx   map[string]string
 }
 
 func newAgg() *agg {
 	return &agg{distinct: map[string]bool{}, nontriv: map[string]bool{}, stats: map[string]int{}, faults: map[string]int{},
-		incon: map[string]int{}, foreign: map[string]int{}, classes: map[string]int{}}
+		incon: map[string]int{}, foreign: map[string]int{}, classes: map[string]int{}, knownHit: map[string]int{}, knownEx: map[string]string{}}
 }
 
 func (a *agg) add(r *result) {
@@ -230,6 +238,12 @@ func (a *agg) add(r *result) {
 	}
 	if r.Incon != "" {
 		a.incon[r.Incon]++
+	}
+	for k, ex := range r.Known {
+		a.knownHit[k]++
+		if _, ok := a.knownEx[k]; !ok {
+			a.knownEx[k] = fmt.Sprintf("seed %d: %s", r.Params.Seed, ex)
+		}
 	}
 	if len(a.samples) < 3 && r.Sample != "" {
 		a.samples = append(a.samples, map[string]interface{}{"seed": r.Params.Seed, "scenario": r.Params.Scenario, "config": r.Config, "n_ops": r.NOps, "first_op": r.Sample})
@@ -262,7 +276,7 @@ func runWorkers(b *build, prop string, p part, seed uint64, secs float64, a *agg
 		wg.Add(1)
 		go func(w int) {
 			defer wg.Done()
-			args := []string{"-prop", prop, "-scen", p.Scen, "-seed", strconv.FormatUint(seed, 10), "-from", strconv.Itoa(w),
+			args := []string{"-known", filepath.Join(b.scratch, "known.txt"), "-prop", prop, "-scen", p.Scen, "-seed", strconv.FormatUint(seed, 10), "-from", strconv.Itoa(w),
 				"-stride", strconv.Itoa(nw), "-n", "100000000", "-secs", fmt.Sprintf("%.1f", secs)}
 			cmd := exec.Command(bin, args...)
 			cmd.Env = append(os.Environ(), "GORACE=halt_on_error=0 log_path="+filepath.Join(b.scratch, fmt.Sprintf("race-%d", w)))
@@ -325,7 +339,7 @@ func runOne(b *build, p params, race bool) (*result, error) {
 	if race {
 		bin = b.raceW
 	}
-	cmd := exec.Command(bin, "-replay", f)
+	cmd := exec.Command(bin, "-known", filepath.Join(b.scratch, "known.txt"), "-replay", f)
 	cmd.Env = append(os.Environ(), "GORACE=halt_on_error=0 log_path="+filepath.Join(b.scratch, "race-replay"))
 	var out, errb bytes.Buffer
 	cmd.Stdout = &out
@@ -478,7 +492,8 @@ func loadKnown() []knownFinding {
 
 func isKnown(known []knownFinding, sig string) *knownFinding {
 	for i := range known {
-		if known[i].Sig == sig {
+		k := known[i].Sig
+		if k == sig || (strings.HasSuffix(k, "*") && strings.HasPrefix(sig, strings.TrimSuffix(k, "*"))) {
 			return &known[i]
 		}
 	}
@@ -636,6 +651,23 @@ func check(prop, tier string) int {
 		if exit == 1 {
 			break
 		}
+	}
+	var kpats []string
+	for k := range a.knownHit {
+		kpats = append(kpats, k)
+	}
+	sort.Strings(kpats)
+	for _, k := range kpats {
+		what := k
+		if kf := isKnown(known, k); kf != nil {
+			what = kf.What
+		}
+		ex := a.knownEx[k]
+		if len(ex) > 600 {
+			ex = ex[:600] + "..."
+		}
+		fmt.Printf("KNOWN-FINDING: property=%s %s [pattern %s, met in %d runs; e.g. %s]\n", prop, what, k, a.knownHit[k], strings.ReplaceAll(ex, "\n", " "))
+		reported = append(reported, map[string]interface{}{"sig": k, "known": true, "runs": a.knownHit[k]})
 	}
 	writeEvidence(prop, tier, seed, a, b, time.Since(start).Seconds(), buildS, reported, exit)
 	return exit
